@@ -14,7 +14,7 @@ import torch.nn.functional as F
 
 from deepali.core import functional as U
 from deepali.core.grid import Axes, Grid
-from deepali.core.linalg import as_homogeneous_matrix
+from deepali.core.linalg import as_homogeneous_matrix, homogeneous_matmul
 from deepali.core.typing import Device
 from deepali.data.flow import FlowFields
 from deepali.modules import DeviceProperty
@@ -320,6 +320,12 @@ class SpatialTransform(DeviceProperty, Module, metaclass=ABCMeta):
         # - (N, D, D + 1): Affine transformation, including translation.
         if data.ndim == 3:
             assert self.linear
+            if grid != self.grid() or grid.align_corners() != self.align_corners():
+                # Matrix is defined with respect to the cube of self.grid(), re-express it in the cube of the output grid
+                axes, to_axes = self.axes(), Axes.from_grid(grid)
+                pre = grid.transform(to_axes, axes, to_grid=self.grid()).to(data)
+                post = self.grid().transform(axes, to_axes, to_grid=grid).to(data)
+                data = homogeneous_matmul(post, data, pre)
             data = U.affine_flow(data, grid)
         # Non-rigid deformation tensor as displacement field with shape (N, D, ..., X)
         else:
